@@ -277,7 +277,7 @@ def decode_any(text, fmt):
 
 
 # ---------------------------------------------------------------------------------------------
-# independent writer (for C03): layouts long / short / elan-long, numeral styles
+# independent writer (for C03): layouts long / short / elan-long / tight-long, numeral styles
 # ---------------------------------------------------------------------------------------------
 def esc(s):
     return s.replace('"', '""')
@@ -308,29 +308,32 @@ def spec_write(data, layout="long", style="plain", neg_zero=False):
     elan = layout == "elan"
     # ELAN's style as in tests/files/bobby_phones_elan.TextGrid: "item []: " at the top but "item[1]:" for the tiers,
     # "intervals [1]" without a colon, header xmin/xmax without the trailing blank
+    # "tight": like "long" but no blank before '=' (class= "IntervalTier", xmin= 0, text= "x") - regression for A22.  The blank
+    # AFTER '=' stays: Praat reads free-standing values only (the independent reader below rejects `xmin=0`)
+    eq = "= " if layout == "tight" else " = "
     ind = "    "
     htail = "" if elan else " "
-    out += ['File type = "ooTextFile"', 'Object class = "TextGrid"', "", f"xmin = {nz(data['lo'])}{htail}", f"xmax = {num(data['hi'], style)}{htail}",
+    out += ['File type = "ooTextFile"', 'Object class = "TextGrid"', "", f"xmin{eq}{nz(data['lo'])}{htail}", f"xmax{eq}{num(data['hi'], style)}{htail}",
             "tiers? <exists> ", f"size = {len(data['tiers'])} ", "item []: "]
     for i, t in enumerate(data["tiers"]):
         out.append(f"{ind}item[{i + 1}]:" if elan else f"{ind}item [{i + 1}]:")
-        out.append(f'{ind * 2}class = "{"IntervalTier" if t["k"] == "I" else "TextTier"}" ')
-        out.append(f'{ind * 2}name = "{esc(t["name"])}" ')
-        out.append(f"{ind * 2}xmin = {nz(t['lo'])}{htail}")
-        out.append(f"{ind * 2}xmax = {num(t['hi'], style)} ")
+        out.append(f'{ind * 2}class{eq}"{"IntervalTier" if t["k"] == "I" else "TextTier"}" ')
+        out.append(f'{ind * 2}name{eq}"{esc(t["name"])}" ')
+        out.append(f"{ind * 2}xmin{eq}{nz(t['lo'])}{htail}")
+        out.append(f"{ind * 2}xmax{eq}{num(t['hi'], style)} ")
         if t["k"] == "I":
             out.append(f"{ind * 2}intervals: size = {len(t['es'])} ")
             for j, (s, e, l) in enumerate(t["es"]):
                 out.append(f"{ind * 2}intervals [{j + 1}]" + ("" if elan else ":"))
-                out.append(f"{ind * 3}xmin = {nz(s)} ")
-                out.append(f"{ind * 3}xmax = {num(e, style)} ")
-                out.append(f'{ind * 3}text = "{esc(l)}" ')
+                out.append(f"{ind * 3}xmin{eq}{nz(s)} ")
+                out.append(f"{ind * 3}xmax{eq}{num(e, style)} ")
+                out.append(f'{ind * 3}text{eq}"{esc(l)}" ')
         else:
             out.append(f"{ind * 2}points: size = {len(t['es'])} ")
             for j, (x, l) in enumerate(t["es"]):
                 out.append(f"{ind * 2}points [{j + 1}]" + ("" if elan else ":"))
-                out.append(f"{ind * 3}number = {nz(x)} ")
-                out.append(f'{ind * 3}mark = "{esc(l)}" ')
+                out.append(f"{ind * 3}number{eq}{nz(x)} ")
+                out.append(f'{ind * 3}mark{eq}"{esc(l)}" ')
     return "\n".join(out) + "\n"
 
 
